@@ -89,8 +89,8 @@ Proof. unfold candidate. destruct k; reflexivity. Qed.
 Lemma uniq_name_ok : forall fuel n taken n', uniq_name fuel n taken = Some n' -> name_ok n = true -> name_ok n' = true.
 Proof.
   induction fuel as [|k IH]; intros n taken n' H Hn; cbn [uniq_name] in H.
-  - destruct (str_mem n taken); [discriminate|]. injection H as <-. exact Hn.
-  - destruct (str_mem n taken); [|injection H as <-; exact Hn].
+  - destruct (str_mem (unraw n) taken); [discriminate|]. injection H as <-. exact Hn.
+  - destruct (str_mem (unraw n) taken); [|injection H as <-; exact Hn].
     eapply IH; [exact H|]. unfold suffix. apply append_us_ok.
 Qed.
 
